@@ -246,6 +246,13 @@ impl TableProvider for ShardedParquetTable {
         let mut scaled = base.clone();
         scaled.row_count = self.rows.max(0) as usize;
         scaled.total_byte_size = self.bytes;
+        // The distinct-value estimates describe the WHOLE table. Next to a shard's
+        // row count they make every NULL-free integer column look unique
+        // (ndv_est >= row_count), and group-key reduction then drops the other
+        // GROUP BY columns inside the shard. A shard has no estimate of its own.
+        for cs in scaled.column_stats.values_mut() {
+            cs.ndv_est = None;
+        }
         Some(scaled)
     }
 
